@@ -6,15 +6,16 @@ PROP = Property(
     verus=[VerusUnit(
         "verify_single_signature", "verus/C16/verify_single_signature.tmpl.rs",
         "extracted text of mithril-common MultiSigner::verify_single_signature: Ok ==> the signature verifies for this message under the (key, stake) registered at the slot the signature names, with the clerk's "
-        "aggregate key and the configured parameters; OBLIGATION of C16 (fails, known finding F-C16-1): Ok ==> that slot is the slot of the party the submission NAMES (party_id)",
+        "aggregate key and the configured parameters, AND the key at that slot is the key registered by the party the submission NAMES (party_id) - the obligation of C16 (finding F-C16-1, repaired)",
         ["MultiSigner::verify_single_signature", "MultiSigner::compute_aggregate_verification_key"])],
     replays=[dict(crate="mithril-common", file=MS, module="replays/c16_multi_signer.rs")],
     assumptions=[
         "PARTIAL: only the common verification function that the aggregator's SingleSignatureAuthenticator relies on is under contract; the aggregator's certifier / buffered certifier / repository / HTTP and DMQ paths (async, SQLite) are not decided",
         "mithril-stm SingleSignature::verify is a callee contract (C01); the registration lookup by slot is a contract of the clerk",
         "entities::SingleSignature is declared with the two fields the function reads (party_id, protocol signature); to_protocol_signature returns that signature",
+        "the party-id -> key table (HashMap) is an opaque map with one lookup contract; `map.get(&id) != Some(&vk)` -> contract fn; anyhow!(..) -> error constructor",
         "extraction rewrites: generic <T: ToMessage> -> an abstract message type; StdResult -> Result; the two .with_context(|| format!(..party_id..)) closures removed (party_id is used in error text only); strip_cfg future_snark",
     ],
-    explanation="The one function at which 'attributed to the party whose registered key produced it' can be stated is verified on its extracted text: what it guarantees (validity under the slot's key) holds; what C16 needs (the slot belongs to the named party) does not follow - recorded as a known finding with a replay on real keys.",
+    explanation="The one function at which 'attributed to the party whose registered key produced it' can be stated is verified on its extracted text: validity under the slot's key AND that this key is the one registered by the named party (the pinned code lacked the second part: finding F-C16-1, repaired by 5ac40c9ce; the party-id -> key table is built by SignerBuilder::new, C06 unit signer_builder).",
     not_decided=["storage under the party's name, buffering, de-duplication and the published signer list (aggregator async services)"],
 )
